@@ -1,6 +1,7 @@
 import PdModel.Lemmas.BuilderDiff
 set_option linter.unusedSimpArgs false
 set_option linter.unusedVariables false
+set_option linter.unusedSectionVars false
 /-! The non-joint builder when at most one peer change is pending (the only way it runs while joint
     consensus is on): one plan, then the final leader transfer. -/
 namespace PdModel.Builder
@@ -317,6 +318,271 @@ theorem round_promote (n0 : Peer) (hA : b1.toAdd = []) (hR : b1.toRemove = []) (
           have h2 := pmGet_of_mem rec.nodupT hn
           rw [e1, e, h2] at h1; cases h1; rfl
         rw [← this, e2]
+
+theorem leaderCand_start {L : Nat} (h : LeaderCand b1 L) :
+    ∃ p ∈ b0.originPeers, p.store = L ∧ p.role = .voter := by
+  have := leaderCand_voter (b := b1) (by rw [hp.cur]; exact rec.plainO) h
+  rw [hp.cur] at this; exact this
+
+/-- exactly one peer is to be added -/
+theorem round_add (a : Peer) (hA : b1.toAdd = [a]) (hR : b1.toRemove = []) (hP : b1.toPromote = [])
+    (hD : b1.toDemote = []) (hne : (peerPlan b1).isEmpty = false) : RoundOk b0 (execPlan b1 (peerPlan b1)) := by
+  have hplan : peerPlan b1 = planAddPeer b1 := by
+    have hpp : peerPlan b1 = (if !(planAddPeer b1).isEmpty then planAddPeer b1 else {}) := by
+      rw [peerPlan_of_empty_replace b1 (planReplace_empty b1 (Or.inl hD) (Or.inr hR))]
+      have e1 : planPromotePeer b1 = {} := by simp [planPromotePeer, hP, pmSorted_nil]
+      have e2 : planDemotePeer b1 = {} := by simp [planDemotePeer, hD, pmSorted_nil]
+      have e3 : planRemovePeer b1 = {} := by simp [planRemovePeer, hR, pmSorted_nil]
+      rw [e1, e2, e3]
+      have he : (({} : Plan).isEmpty) = true := rfl
+      simp only [he, Bool.not_true, Bool.false_eq_true, if_false]
+    cases hq : (planAddPeer b1).isEmpty
+    · rw [hpp, hq]; rfl
+    · rw [hpp, hq] at hne; cases hne
+  rw [hplan] at hne ⊢
+  rcases planAddPeer_spec b1 with e | ⟨a', ha', L, hL, e⟩
+  · rw [e] at hne; cases hne
+  rw [hA, pmSorted_single] at ha'
+  simp only [List.mem_singleton] at ha'
+  subst ha'
+  rw [e]
+  -- facts about a
+  obtain ⟨_, hadd, _⟩ := diff_add b0 rec nid b1.toAdd hp.toAdd
+  obtain ⟨na, hna, hnas, hnar, hneed⟩ := hadd a' (by rw [hA]; simp)
+  have hfresh : a'.store ∉ stores b0.originPeers := by
+    rcases (needAdd_iff b0 rec na).1 hneed with h | ⟨hd, hl, o, ho, hos, hor⟩
+    · rw [← hnas]; exact h
+    · exfalso
+      have := diff_remove_complete b0 rec o ho (Or.inr ⟨hd, hor, na, hna, hos.symm, hl⟩)
+      rw [← hp.toRemove, hR] at this; cases this
+  have harole : a'.role = .voter ∨ a'.role = .learner := by rw [← hnar]; exact rec.plainT na hna
+  have h0 := sinv_start b0 b1 nid rec hp
+  obtain ⟨pL, hpL, hpLs, hpLr⟩ := leaderCand_start b0 b1 nid rec hp hL
+  have hcurp : b1.cur.peers = b0.originPeers := by rw [hp.cur]
+  -- the optional transfer
+  have hstep1 : ∃ bT : B, SInv ⟨b0.originPeers, b0.originLeader⟩
+      (minVoters ⟨b0.originPeers, b0.originLeader⟩ (targetOfPeers b0.targetPeers (reqLeader b0))) bT ∧
+      bT.cur.peers = b0.originPeers ∧
+      execPlan b1 { add := some a', leaderBeforeAdd := L } = { execAddPeer bT a' with kindRegion := true } := by
+    by_cases hc : (L != 0 && L != b1.cur.leader) = true
+    · obtain ⟨t1, t2⟩ := sinv_transfer h0 L ⟨pL, by rw [hcurp]; exact hpL, hpLs, hpLr⟩
+      refine ⟨{ execTransferLeader b1 L with kindLeader := true }, sinv_congr t1 rfl rfl, ?_, ?_⟩
+      · show (execTransferLeader b1 L).cur.peers = _; rw [t2, hcurp]
+      · simp [execPlan, hc]
+    · refine ⟨b1, h0, hcurp, ?_⟩
+      simp [execPlan, hc]
+  obtain ⟨bT, hT, hTp, hex⟩ := hstep1
+  rw [hex]
+  obtain ⟨s1, s2⟩ := sinv_add hT a' (by rw [hTp]; exact hfresh) harole
+  refine ⟨sinv_congr s1 rfl rfl, ?_⟩
+  show Matches (execAddPeer bT a').cur.peers b0.targetPeers
+  rw [s2, hTp]
+  constructor
+  · intro q hq
+    rcases List.mem_append.1 hq with hq | hq
+    · exact settled_sound b0 b1 nid rec hp q hq (by simp [hR]) (by simp [hP]) (by simp [hD])
+    · simp only [List.mem_singleton] at hq; subst hq
+      exact ⟨na, hna, hnas, hnar⟩
+  · intro n hn
+    by_cases es : n.store = a'.store
+    · refine ⟨a', List.mem_append.2 (Or.inr (List.mem_singleton.2 rfl)), es.symm, ?_⟩
+      have : n = na := by
+        have h1 := pmGet_of_mem rec.nodupT hn
+        have h2 := pmGet_of_mem rec.nodupT hna
+        rw [es, ← hnas, h2] at h1; cases h1; rfl
+      rw [this, hnar]
+    · obtain ⟨p, hpO, e'⟩ := settled_complete b0 b1 nid rec hp n hn
+        (by rw [hA]; intro x hx; simp only [List.mem_singleton] at hx; subst hx; exact Ne.symm es)
+      obtain ⟨n', hn', e1, e2⟩ := settled_sound b0 b1 nid rec hp p hpO (by simp [hR]) (by simp [hP]) (by simp [hD])
+      have : n' = n := by
+        have h1 := pmGet_of_mem rec.nodupT hn'
+        have h2 := pmGet_of_mem rec.nodupT hn
+        rw [e1, e', h2] at h1; cases h1; rfl
+      exact ⟨p, List.mem_append.2 (Or.inl hpO), e', by rw [← this, e2]⟩
+
+theorem min_le_target :
+    minVoters ⟨b0.originPeers, b0.originLeader⟩ (targetOfPeers b0.targetPeers (reqLeader b0)) ≤ votersOf b0.targetPeers := by
+  unfold minVoters
+  have : targetVoters (targetOfPeers b0.targetPeers (reqLeader b0)) = votersOf b0.targetPeers := by
+    simp only [targetVoters, targetOfPeers, votersOf, List.countP_map]
+    apply List.countP_congr
+    intro p hp'
+    rcases rec.plainT p hp' with e | e <;> simp [e]
+  rw [this]; exact Nat.min_le_right _ _
+
+/-- the transfer to `leaderBeforeRemove`, if the plan asks for one -/
+theorem transfer_before_remove (L s : Nat) (hL : LeaderCand b1 L) (hLs : L ≠ s) :
+    ∃ bT : B, SInv ⟨b0.originPeers, b0.originLeader⟩
+      (minVoters ⟨b0.originPeers, b0.originLeader⟩ (targetOfPeers b0.targetPeers (reqLeader b0))) bT ∧
+      bT.cur.peers = b0.originPeers ∧ bT.cur.leader ≠ s ∧
+      bT = (if L != 0 && L != b1.cur.leader then { execTransferLeader b1 L with kindLeader := true } else b1) := by
+  have h0 := sinv_start b0 b1 nid rec hp
+  obtain ⟨pL, hpL, hpLs, hpLr⟩ := leaderCand_start b0 b1 nid rec hp hL
+  have hcurp : b1.cur.peers = b0.originPeers := by rw [hp.cur]
+  by_cases hc : (L != 0 && L != b1.cur.leader) = true
+  · obtain ⟨t1, t2⟩ := sinv_transfer h0 L ⟨pL, by rw [hcurp]; exact hpL, hpLs, hpLr⟩
+    refine ⟨{ execTransferLeader b1 L with kindLeader := true }, sinv_congr t1 rfl rfl, ?_, ?_, by simp [hc]⟩
+    · show (execTransferLeader b1 L).cur.peers = _; rw [t2, hcurp]
+    · show (execTransferLeader b1 L).cur.leader ≠ s; rw [t2]; exact hLs
+  · refine ⟨b1, h0, hcurp, ?_, by simp [hc]⟩
+    have hL0 : L ≠ 0 := by rw [← hpLs]; exact rec.store0 pL hpL
+    simp only [Bool.and_eq_true, bne_iff_ne, ne_eq, not_and, Classical.not_not] at hc
+    rw [← hc hL0]; exact hLs
+
+/-- exactly one peer is to be removed -/
+theorem round_remove (x : Peer) (hA : b1.toAdd = []) (hR : b1.toRemove = [x]) (hP : b1.toPromote = [])
+    (hD : b1.toDemote = []) (hne : (peerPlan b1).isEmpty = false) : RoundOk b0 (execPlan b1 (peerPlan b1)) := by
+  have hplan : peerPlan b1 = planRemovePeer b1 := by
+    have hpp : peerPlan b1 = (if !(planRemovePeer b1).isEmpty then planRemovePeer b1 else {}) := by
+      rw [peerPlan_of_empty_replace b1 (planReplace_empty b1 (Or.inl hD) (Or.inl hA))]
+      have e1 : planPromotePeer b1 = {} := by simp [planPromotePeer, hP, pmSorted_nil]
+      have e2 : planDemotePeer b1 = {} := by simp [planDemotePeer, hD, pmSorted_nil]
+      have e3 : planAddPeer b1 = {} := by simp [planAddPeer, hA, pmSorted_nil]
+      rw [e1, e2, e3]
+      have he : (({} : Plan).isEmpty) = true := rfl
+      simp only [he, Bool.not_true, Bool.false_eq_true, if_false]
+    cases hq : (planRemovePeer b1).isEmpty
+    · rw [hpp, hq]; rfl
+    · rw [hpp, hq] at hne; cases hne
+  rw [hplan] at hne ⊢
+  rcases planRemovePeer_spec b1 with e | ⟨x', hx', L, hL, hLs, e⟩
+  · rw [e] at hne; cases hne
+  rw [hR, pmSorted_single] at hx'
+  simp only [List.mem_singleton] at hx'
+  subst hx'
+  rw [e]
+  -- facts about x
+  obtain ⟨hxO, hxT⟩ := diff_remove_sound b0 rec x' (by rw [← hp.toRemove, hR]; simp)
+  have hxT' : x'.store ∉ stores b0.targetPeers := by
+    rcases hxT with h | ⟨hd, hv, n, hn, hns, hnr⟩
+    · exact h
+    · exfalso
+      obtain ⟨_, _, h3⟩ := diff_add b0 rec nid b1.toAdd hp.toAdd
+      obtain ⟨a, ha, _⟩ := h3 n hn ((needAdd_iff b0 rec n).2 (Or.inr ⟨hd, hnr, x', hxO, hns.symm, hv⟩))
+      rw [hA] at ha; cases ha
+  obtain ⟨bT, hT, hTp, hTl, hTe⟩ := transfer_before_remove b0 b1 nid rec hp L x'.store hL hLs
+  have hex : execPlan b1 { remove := some x', leaderBeforeRemove := L } = { execRemovePeer bT x' with kindRegion := true } := by
+    rw [hTe]; simp [execPlan]
+  rw [hex]
+  -- the result matches the target
+  have hM : Matches (b0.originPeers.filter (fun p => p.store != x'.store)) b0.targetPeers := by
+    constructor
+    · intro q hq
+      obtain ⟨hq1, hq2⟩ := List.mem_filter.1 hq
+      apply settled_sound b0 b1 nid rec hp q hq1 ?_ (by simp [hP]) (by simp [hD])
+      rw [hR]; simp only [List.mem_singleton]; intro e'; subst e'; simp at hq2
+    · intro n hn
+      obtain ⟨p, hpO, e'⟩ := settled_complete b0 b1 nid rec hp n hn (by simp [hA])
+      have hpx : p.store ≠ x'.store := fun e2 => hxT' (e2 ▸ e' ▸ mem_stores.2 ⟨n, hn, rfl⟩)
+      obtain ⟨n', hn', e1, e2⟩ := settled_sound b0 b1 nid rec hp p hpO
+        (by rw [hR]; simp only [List.mem_singleton]; intro e3; exact hpx (e3 ▸ rfl)) (by simp [hP]) (by simp [hD])
+      have : n' = n := by
+        have h1 := pmGet_of_mem rec.nodupT hn'
+        have h2 := pmGet_of_mem rec.nodupT hn
+        rw [e1, e', h2] at h1; cases h1; rfl
+      exact ⟨p, List.mem_filter.2 ⟨hpO, by simpa using hpx⟩, e', by rw [← this, e2]⟩
+  have hnf : (stores (b0.originPeers.filter (fun p => p.store != x'.store))).Nodup :=
+    List.Nodup.sublist (List.Sublist.map _ List.filter_sublist) rec.nodupO
+  obtain ⟨s1, s2⟩ := sinv_remove hT x' (Ne.symm hTl)
+    (by rw [hTp, matches_voters hM hnf rec.nodupT]; exact min_le_target b0 b1 nid rec hp)
+  refine ⟨sinv_congr s1 rfl rfl, ?_⟩
+  show Matches (execRemovePeer bT x').cur.peers b0.targetPeers
+  rw [s2, hTp]; exact hM
+
+/-- exactly one voter is to be demoted in place -/
+theorem round_demote (d : Peer) (hids : (b0.originPeers.map (·.id)).Nodup) (hA : b1.toAdd = []) (hR : b1.toRemove = [])
+    (hP : b1.toPromote = []) (hD : b1.toDemote = [d]) (hne : (peerPlan b1).isEmpty = false) :
+    RoundOk b0 (execPlan b1 (peerPlan b1)) := by
+  have hplan : peerPlan b1 = planDemotePeer b1 := by
+    have hpp : peerPlan b1 = (if !(planDemotePeer b1).isEmpty then planDemotePeer b1 else {}) := by
+      rw [peerPlan_of_empty_replace b1 (planReplace_empty b1 (Or.inr hP) (Or.inl hA))]
+      have e1 : planPromotePeer b1 = {} := by simp [planPromotePeer, hP, pmSorted_nil]
+      have e2 : planRemovePeer b1 = {} := by simp [planRemovePeer, hR, pmSorted_nil]
+      have e3 : planAddPeer b1 = {} := by simp [planAddPeer, hA, pmSorted_nil]
+      rw [e1, e2, e3]
+      have he : (({} : Plan).isEmpty) = true := rfl
+      simp only [he, Bool.not_true, Bool.false_eq_true, if_false]
+    cases hq : (planDemotePeer b1).isEmpty
+    · rw [hpp, hq]; rfl
+    · rw [hpp, hq] at hne; cases hne
+  rw [hplan] at hne ⊢
+  rcases planDemotePeer_spec b1 with e | ⟨d', hd', L, hL, hLs, e⟩
+  · rw [e] at hne; cases hne
+  rw [hD, pmSorted_single] at hd'
+  simp only [List.mem_singleton] at hd'
+  subst hd'
+  rw [e]
+  obtain ⟨_, o, ho, hov, ⟨nl, hnl, hnls, hnlr⟩, rfl⟩ := (diff_demote_iff b0 rec d').1 (by rw [← hp.toDemote, hD]; simp)
+  obtain ⟨bT, hT, hTp, hTl, hTe⟩ := transfer_before_remove b0 b1 nid rec hp L o.store hL hLs
+  have hex : execPlan b1 { demote := some ⟨o.store, o.id, .learner⟩, leaderBeforeRemove := L } =
+      execDemoteFollower bT ⟨o.store, o.id, .learner⟩ := by
+    rw [hTe]; simp [execPlan]
+  rw [hex]
+  have hM : Matches (setRole b0.originPeers o.store .learner) b0.targetPeers := by
+    constructor
+    · intro q hq
+      obtain ⟨p, hpO, rfl⟩ := mem_setRole hq
+      by_cases es : p.store = o.store
+      · have eb : (p.store == o.store) = true := by simpa using es
+        simp only [eb, if_true]
+        exact ⟨nl, hnl, hnls.trans es.symm, hnlr⟩
+      · have : (p.store == o.store) = false := by simpa using es
+        simp only [this, Bool.false_eq_true, if_false]
+        apply settled_sound b0 b1 nid rec hp p hpO (by simp [hR]) (by simp [hP])
+        rw [hD]; simp only [List.mem_singleton, Peer.mk.injEq, not_and]; intro e'; exact absurd e' es
+    · intro n hn
+      obtain ⟨p, hpO, e'⟩ := settled_complete b0 b1 nid rec hp n hn (by simp [hA])
+      refine ⟨if p.store == o.store then { p with role := Role.learner } else p, ?_, ?_, ?_⟩
+      · unfold setRole; exact List.mem_map.2 ⟨p, hpO, rfl⟩
+      · split <;> exact e'
+      · by_cases es : p.store = o.store
+        · have eb : (p.store == o.store) = true := by simpa using es
+          simp only [eb, if_true]
+          have : n = nl := by
+            have h1 := pmGet_of_mem rec.nodupT hn
+            have h2 := pmGet_of_mem rec.nodupT hnl
+            rw [← e', es, ← hnls, h2] at h1; cases h1; rfl
+          rw [this, hnlr]
+        · have : (p.store == o.store) = false := by simpa using es
+          simp only [this, Bool.false_eq_true, if_false]
+          obtain ⟨n', hn', e1, e2⟩ := settled_sound b0 b1 nid rec hp p hpO (by simp [hR]) (by simp [hP])
+            (by rw [hD]; simp only [List.mem_singleton, Peer.mk.injEq, not_and]; intro e3; exact absurd e3 es)
+          have : n' = n := by
+            have h1 := pmGet_of_mem rec.nodupT hn'
+            have h2 := pmGet_of_mem rec.nodupT hn
+            rw [e1, e', h2] at h1; cases h1; rfl
+          rw [← this, e2]
+  have hnf : (stores (setRole b0.originPeers o.store .learner)).Nodup := by rw [stores_setRole]; exact rec.nodupO
+  -- the leader's peer id differs from the demoted peer's id
+  obtain ⟨pl, hpl, hpls, hplr⟩ := hT.leader
+  have hlid : o.id ≠ leaderPeerId bT.cur := by
+    have hg : storePeer bT.cur bT.cur.leader = some pl := by
+      rw [storePeer_eq_pmGet, ← hpls]; exact pmGet_of_mem hT.nodup hpl
+    simp only [leaderPeerId, hg, idOf]
+    intro eid
+    rw [hTp] at hpl
+    -- same id in a list with distinct ids: same peer
+    have : o = pl := by
+      have hinj : ∀ (l : List Peer), (l.map (·.id)).Nodup → ∀ a ∈ l, ∀ c ∈ l, a.id = c.id → a = c := by
+        intro l
+        induction l with
+        | nil => intro _ a ha; cases ha
+        | cons y ys ih =>
+          intro hnd a ha c hc hac
+          simp only [List.map_cons, List.nodup_cons] at hnd
+          rcases List.mem_cons.1 ha with rfl | ha' <;> rcases List.mem_cons.1 hc with rfl | hc'
+          · rfl
+          · exact absurd (List.mem_map.2 ⟨c, hc', hac.symm⟩) hnd.1
+          · exact absurd (List.mem_map.2 ⟨a, ha', hac⟩) hnd.1
+          · exact ih hnd.2 a ha' c hc' hac
+      exact hinj _ hids o ho pl hpl eid
+    exact hTl (by rw [← hpls, ← this])
+  obtain ⟨s1, s2⟩ := sinv_setRole hT ⟨o.store, o.id, .learner⟩ (.demoteFollower o.store o.id)
+    (Or.inr ⟨rfl, rfl, Ne.symm hTl, hlid⟩) ⟨o, by rw [hTp]; exact ho, rfl, rfl⟩
+    (by rw [hTp, matches_voters hM hnf rec.nodupT]; exact min_le_target b0 b1 nid rec hp)
+  refine ⟨sinv_congr s1 rfl rfl, ?_⟩
+  show Matches (pmSet bT.cur.peers ⟨o.store, o.id, .learner⟩) b0.targetPeers
+  rw [s2, hTp]; exact hM
 
 end
 
